@@ -54,13 +54,36 @@ Definition canonical (kb : kbody) : bool :=
   match kyielded kb with [None] => true | _ => false end.
 
 (* ---------------------------------------------------------------- LowerRescale and the result type *)
-(* LowerRescale never looks at the result type of the kernel.rescale op: the body it builds always ends in
-   `arith.trunci ... to i8` and yields that i8 value, also for `kernel.rescale (i32) -> i32` (which
-   convert_tosa_to_kernel produces for i32 outputs).  `wout` = width of the result / output block argument. *)
+(* LowerRescale (after the repair of F-C18-3, /repo 241b7f1) converts the clamped i32 value to the result type
+   of the kernel.rescale op: arith.trunci for a narrower type, nothing for i32, arith.extsi for a wider one.
+   `wout` = width of the result / output block argument.  Before the repair the body always ended in
+   `trunci ... to i8` (`rescale_region_for_old`). *)
+Definition rescale_core_ops (p : rparams) : list bop := firstn 8 (ops (rescale_region p)).
 Definition rescale_region_for (wout : Z) (p : rparams) : body :=
+  if wout <? 32 then mkBody [32; wout] (rescale_core_ops p ++ [mkOp KTrunc wout [SRes 7]]) [SRes 8]
+  else if wout =? 32 then mkBody [32; wout] (rescale_core_ops p) [SRes 7]
+  else mkBody [32; wout] (rescale_core_ops p ++ [mkOp KExt wout [SRes 7]]) [SRes 8].
+Definition rescale_region_for_old (wout : Z) (p : rparams) : body :=
   mkBody [32; wout] (ops (rescale_region p)) (yielded (rescale_region p)).
-(* class of the known finding F-C18-3 *)
+(* class of the former finding F-C18-3 *)
 Definition rescale_result_not_i8 (wout : Z) : bool := negb (wout =? 8).
+(* the clamped i32 value, and when it is the golden model's value for a result of width wout *)
+Definition rescale_core (p : rparams) (x : Z) : Z :=
+  let v := wrap 32 (x - zp_in p) in
+  let m := wrap 64 (v * mult p) in
+  let s := Z.shiftr m (shift p) in
+  let t := wrap 32 s in
+  let o := wrap 32 (t + zp_out p) in
+  Z.max (Z.min o (max_int p)) (min_int p).
+Definition rescale_safe_w (wout : Z) (p : rparams) (x : Z) : bool :=
+  negb (double_round p) &&
+  (1 <=? shift p) && (shift p <? 64) &&
+  in_rangeb 32 (x - zp_in p) &&
+  in_rangeb 64 ((x - zp_in p) * mult p) &&
+  in_rangeb 32 (Z.shiftr ((x - zp_in p) * mult p) (shift p - 1)) &&
+  in_rangeb 32 (Z.shiftr ((x - zp_in p) * mult p) (shift p) + zp_out p) &&
+  (min_int p <=? max_int p) && (0 <? wout) &&
+  in_rangeb (Z.min wout 32) (min_int p) && in_rangeb (Z.min wout 32) (max_int p).
 (* the yielded value has the type of the output block argument (what a verifier should insist on) *)
 Definition yield_typed (b : body) : bool :=
   match yielded b with
